@@ -1,4 +1,4 @@
-import DAVerif.Proofs.WithSound
+import DAVerif.Proofs.WithFix
 /-
 CTE-cache keys (property C04): "equal up to the numbering of query names" implies "same semantics"; a syntactic
 sufficient condition for the hypothesis `KeyOK` of the CTE-elimination theorem.
@@ -127,5 +127,10 @@ theorem KeyOK_of_shape (Θ : Interp) (ec : EngineCfg) (env : Env) (q : Near) (h 
     simp only [Prod.mk.injEq] at he0
     simp only [bkey, cacheKey]
     rw [← unname_key m0.1, ← unname_key m.1, he0.1, he0.2.1]
+
+/-- the semantic half, which is all the code as it is (after fix N28) needs -/
+theorem KeyFaith_of_shape (Θ : Interp) (ec : EngineCfg) (env : Env) (q : Near) (h : ShapeDet q) :
+    KeyFaith Θ ec env cacheKey q :=
+  (KeyOK_of_shape Θ ec env q h).faith
 
 end DAVerif.Sql
